@@ -229,7 +229,21 @@ func buildRequest(rid int, q Req) *kmip.RequestMessage {
 	msg.Header.BatchOrderOption = orderOpt
 	msg.Header.BatchCount = int32(len(q.Items))
 	if q.Count == "mismatch" {
-		msg.Header.BatchCount = int32(len(q.Items)) + 1
+		// any announced count other than the number of items is a mismatch: one more, none (with items), one less, a negative one
+		n := int32(len(q.Items))
+		msg.Header.BatchCount = n + 1
+		switch rid % 4 {
+		case 1:
+			if n >= 1 {
+				msg.Header.BatchCount = 0
+			}
+		case 2:
+			if n >= 2 {
+				msg.Header.BatchCount = n - 1
+			}
+		case 3:
+			msg.Header.BatchCount = -1
+		}
 	}
 	for k, it := range q.Items {
 		i := k + 1
